@@ -55,6 +55,7 @@ type caseT struct {
 }
 
 var maxResp int32
+var panics int32
 
 // ---------------------------------------------------------------- events
 
@@ -65,6 +66,7 @@ type event struct {
 	ID   int32
 	Ok   bool
 	Err  int64
+	T    int64 // unix nano when logged
 }
 
 type result struct {
@@ -87,6 +89,7 @@ type ctxT struct {
 	lastWr  int64 // unix nano of last wrote event
 	release chan struct{}
 	heldOut int32 // outstanding measured while the receiver was held (-1 = not measured)
+	syncSeq int64 // last event logged before the held receiver was released (0 = not held)
 	rng     *rand.Rand
 }
 
@@ -180,6 +183,7 @@ func observer(kind string, args ...interface{}) {
 	x.mu.Lock()
 	x.seq++
 	ev.Seq = x.seq
+	ev.T = time.Now().UnixNano()
 	x.events = append(x.events, ev)
 	var nth int32
 	switch ev.Kind {
@@ -219,6 +223,13 @@ type reqRec struct {
 	Expects bool
 }
 
+type chunk struct {
+	T     int64 // unix nano just before the bytes were written
+	Trig  int32
+	Bytes []byte
+	Half  bool
+}
+
 type frameRec struct {
 	Tag  int64 // serial tag carried by the body
 	Cid  int32 // correlation id in the header as sent
@@ -227,22 +238,24 @@ type frameRec struct {
 }
 
 type server struct {
-	ln   net.Listener
-	conn *net.TCPConn
-	c    caseT
-	mu   sync.Mutex
-	reqs []reqRec
-	sent []byte
-	frs  []frameRec
-	half bool // write side closed
-	mute bool // silent from now on
-	nexp int
-	nrep int // replies sent (ok frames) while measuring
+	ln     net.Listener
+	conn   *net.TCPConn
+	c      caseT
+	mu     sync.Mutex
+	reqs   []reqRec
+	sent   []byte
+	chunks []chunk // what the server did, in order, each with the request that triggered it
+	frs    []frameRec
+	half   bool // write side closed
+	mute   bool // silent from now on
+	nexp   int
+	nrep   int // replies sent (ok frames) while measuring
 	// server-side outstanding, measured up to the first non-ok spec
 	measuring bool
 	maxOut    int
 	stalled   bool // entered a silent state (a read timeout at the client is expected)
 	rdDone    bool
+	muteUntil time.Time // zero: silent for good; else the server answers again after this moment
 	ch        chan reqRec
 	wg        sync.WaitGroup
 }
@@ -300,14 +313,23 @@ func specClass(sp spec, hv int) string {
 	return "fault"
 }
 
-func (s *server) send(b []byte) {
+func (s *server) send(trig int32, b []byte) {
 	if len(b) == 0 {
 		return
 	}
 	s.mu.Lock()
 	s.sent = append(s.sent, b...)
+	s.chunks = append(s.chunks, chunk{T: time.Now().UnixNano(), Trig: trig, Bytes: b})
 	s.mu.Unlock()
 	_, _ = s.conn.Write(b)
+}
+
+func (s *server) halfClose(trig int32) {
+	s.mu.Lock()
+	s.half = true
+	s.chunks = append(s.chunks, chunk{T: time.Now().UnixNano(), Trig: trig, Half: true})
+	s.mu.Unlock()
+	_ = s.conn.CloseWrite()
 }
 
 func (s *server) writer() {
@@ -316,6 +338,18 @@ func (s *server) writer() {
 	j := 0
 	for r := range s.ch {
 		s.mu.Lock()
+		wait := time.Duration(0)
+		if s.mute && !s.muteUntil.IsZero() {
+			wait = time.Until(s.muteUntil)
+		}
+		s.mu.Unlock()
+		if wait > 0 {
+			time.Sleep(wait) // requests that arrive during a temporary silence are answered when it ends
+		}
+		s.mu.Lock()
+		if s.mute && !s.muteUntil.IsZero() {
+			s.mute = false
+		}
 		dead := s.half || s.mute
 		s.mu.Unlock()
 		sp := s.specFor(j)
@@ -339,45 +373,53 @@ func (s *server) writer() {
 				time.Sleep(time.Duration(sp.Arg) * time.Millisecond)
 			}
 			_, bd := newFrame(r.ID, sp.Kind)
-			s.send(frame(normalLen(bd), r.ID, hv, 0, bd))
+			// counted as answered before the bytes leave: the server-side count never exceeds the client's
 			s.mu.Lock()
 			s.nrep++
 			s.mu.Unlock()
+			s.send(r.ID, frame(normalLen(bd), r.ID, hv, 0, bd))
 		case "wrongid":
 			cid := int32(int64(r.ID) + sp.Arg)
 			_, bd := newFrame(cid, sp.Kind)
-			s.send(frame(normalLen(bd), cid, hv, 0, bd))
+			s.send(r.ID, frame(normalLen(bd), cid, hv, 0, bd))
+		case "wronghdr": // header only (declared length as for a normal reply): a receiver that kept going would find the next frame aligned
+			cid := int32(int64(r.ID) + sp.Arg)
+			_, bd := newFrame(cid, sp.Kind)
+			s.send(r.ID, frame(normalLen(bd), cid, hv, 0, nil))
+		case "badlenhdr":
+			_, _ = newFrame(r.ID, sp.Kind)
+			s.send(r.ID, frame(int32(sp.Arg), r.ID, hv, 0, nil))
 		case "swap":
 			cid := r.ID + 1
 			_, bd := newFrame(cid, sp.Kind)
 			_, bd2 := newFrame(r.ID, sp.Kind)
-			s.send(append(frame(normalLen(bd), cid, hv, 0, bd), frame(normalLen(bd2), r.ID, hv, 0, bd2)...))
+			s.send(r.ID, append(frame(normalLen(bd), cid, hv, 0, bd), frame(normalLen(bd2), r.ID, hv, 0, bd2)...))
 		case "badlen":
 			_, bd := newFrame(r.ID, sp.Kind)
-			s.send(frame(int32(sp.Arg), r.ID, hv, 0, bd))
+			s.send(r.ID, frame(int32(sp.Arg), r.ID, hv, 0, bd))
 		case "lie":
 			_, bd := newFrame(r.ID, sp.Kind)
-			s.send(frame(normalLen(bd)+int32(sp.Arg), r.ID, hv, 0, bd))
+			s.send(r.ID, frame(normalLen(bd)+int32(sp.Arg), r.ID, hv, 0, bd))
 		case "biglen":
 			_, bd := newFrame(r.ID, sp.Kind)
-			s.send(frame(maxResp, r.ID, hv, 0, bd))
+			s.send(r.ID, frame(maxResp, r.ID, hv, 0, bd))
 			s.mu.Lock()
 			s.mute, s.stalled = true, true
+			if sp.Arg == 2 { // silent only until the client's read deadline has certainly passed
+				s.muteUntil = time.Now().Add(time.Duration(s.c.ReadTimeoutMs) * time.Millisecond * 3 / 2)
+			}
 			s.mu.Unlock()
 			if sp.Arg == 1 {
-				s.mu.Lock()
-				s.half = true
-				s.mu.Unlock()
-				_ = s.conn.CloseWrite()
+				s.halfClose(r.ID)
 			}
 		case "tagnz":
 			_, bd := newFrame(r.ID, sp.Kind)
-			s.send(frame(normalLen(bd), r.ID, hv, byte(sp.Arg), bd))
 			if hv == 0 {
 				s.mu.Lock()
 				s.nrep++
 				s.mu.Unlock()
 			}
+			s.send(r.ID, frame(normalLen(bd), r.ID, hv, byte(sp.Arg), bd))
 		case "trunc":
 			_, bd := newFrame(r.ID, sp.Kind)
 			f := frame(normalLen(bd), r.ID, hv, 0, bd)
@@ -385,19 +427,16 @@ func (s *server) writer() {
 			if n >= len(f) {
 				n = len(f) - 1
 			}
-			s.send(f[:n])
-			s.mu.Lock()
-			s.half = true
-			s.mu.Unlock()
-			_ = s.conn.CloseWrite()
+			s.send(r.ID, f[:n])
+			s.halfClose(r.ID)
 		case "close":
-			s.mu.Lock()
-			s.half = true
-			s.mu.Unlock()
-			_ = s.conn.CloseWrite()
+			s.halfClose(r.ID)
 		case "stall":
 			s.mu.Lock()
 			s.mute, s.stalled = true, true
+			if sp.Arg == 1 {
+				s.muteUntil = time.Now().Add(time.Duration(s.c.ReadTimeoutMs) * time.Millisecond * 3 / 2)
+			}
 			s.mu.Unlock()
 		}
 	}
@@ -455,9 +494,13 @@ type obsT struct {
 	Stalled bool       `json:"stalled"`
 	Half    bool       `json:"half_closed"`
 	NoHooks bool       `json:"no_hooks"`
+	Cut     bool       `json:"stream_cut_at_timeout"`
+	Ambig   bool       `json:"ambiguous_timing"`
 	stream  []byte
 	evs     []event
 	ids     map[int]int32 // call -> correlation id
+	syncSeq int64
+	syncN   int // steer_n
 }
 
 func runCase(c caseT) (obsT, error) {
@@ -533,43 +576,51 @@ func runCase(c caseT) (obsT, error) {
 				x.cur.Store(me, i)
 				t0 := time.Now()
 				var r result
-				switch cl.Kind {
-				case "hb":
-					resp, err := b.Heartbeat(&sarama.HeartbeatRequest{GroupId: "g", MemberId: fmt.Sprintf("k%d", i)})
-					if err == nil {
-						r = result{Class: "packet", Tag: int64(uint16(resp.Err))}
-					} else {
-						r = result{Class: "err", Err: errID(err)}
+				func() {
+					defer func() {
+						if v := recover(); v != nil {
+							r = result{Class: "panic", Tag: 0}
+							fmt.Fprintf(os.Stderr, "call %d panicked: %v\n", i, v)
+						}
+					}()
+					switch cl.Kind {
+					case "hb":
+						resp, err := b.Heartbeat(&sarama.HeartbeatRequest{GroupId: "g", MemberId: fmt.Sprintf("k%d", i)})
+						if err == nil {
+							r = result{Class: "packet", Tag: int64(uint16(resp.Err))}
+						} else {
+							r = result{Class: "err", Err: errID(err)}
+						}
+					case "api":
+						resp, err := b.ApiVersions(&sarama.ApiVersionsRequest{})
+						if err == nil {
+							r = result{Class: "packet", Tag: int64(uint16(resp.Err))}
+						} else {
+							r = result{Class: "err", Err: errID(err)}
+						}
+					case "lpr":
+						resp, err := b.ListPartitionReassignments(&sarama.ListPartitionReassignmentsRequest{TimeoutMs: 1})
+						if err == nil {
+							r = result{Class: "packet", Tag: int64(uint32(resp.ThrottleTimeMs))}
+						} else {
+							r = result{Class: "err", Err: errID(err)}
+						}
+					case "noresp":
+						_, err := b.Produce(&sarama.ProduceRequest{RequiredAcks: sarama.NoResponse})
+						if err == nil {
+							r = result{Class: "none"}
+						} else {
+							r = result{Class: "err", Err: errID(err)}
+						}
+					case "close":
+						err := b.Close()
+						if err == nil {
+							r = result{Class: "none"}
+						} else {
+							r = result{Class: "err", Err: errID(err)}
+						}
 					}
-				case "api":
-					resp, err := b.ApiVersions(&sarama.ApiVersionsRequest{})
-					if err == nil {
-						r = result{Class: "packet", Tag: int64(uint16(resp.Err))}
-					} else {
-						r = result{Class: "err", Err: errID(err)}
-					}
-				case "lpr":
-					resp, err := b.ListPartitionReassignments(&sarama.ListPartitionReassignmentsRequest{TimeoutMs: 1})
-					if err == nil {
-						r = result{Class: "packet", Tag: int64(uint32(resp.ThrottleTimeMs))}
-					} else {
-						r = result{Class: "err", Err: errID(err)}
-					}
-				case "noresp":
-					_, err := b.Produce(&sarama.ProduceRequest{RequiredAcks: sarama.NoResponse})
-					if err == nil {
-						r = result{Class: "none"}
-					} else {
-						r = result{Class: "err", Err: errID(err)}
-					}
-				case "close":
-					err := b.Close()
-					if err == nil {
-						r = result{Class: "none"}
-					} else {
-						r = result{Class: "err", Err: errID(err)}
-					}
-				}
+				}()
 				r.Ms = time.Since(t0).Milliseconds()
 				rmu.Lock()
 				results[i] = r
@@ -595,6 +646,7 @@ func runCase(c caseT) (obsT, error) {
 			x.mu.Lock()
 			if int(x.nDeq) >= c.SteerN {
 				x.heldOut = x.nWrote - x.nDone
+				x.syncSeq = x.seq
 			}
 			x.mu.Unlock()
 			close(x.release)
@@ -648,6 +700,7 @@ func runCase(c caseT) (obsT, error) {
 	x.mu.Lock()
 	o.evs = append([]event(nil), x.events...)
 	o.HeldOut = int(x.heldOut)
+	o.syncSeq, o.syncN = x.syncSeq, c.SteerN
 	x.mu.Unlock()
 	// cleanup (not part of the case): close the broker unless a call already did, then the server
 	go func() { _ = b.Close() }()
@@ -655,12 +708,12 @@ func runCase(c caseT) (obsT, error) {
 	_ = srv.conn.Close()
 	srv.wg.Wait()
 	srv.mu.Lock()
-	o.stream = append([]byte(nil), srv.sent...)
+	chunks := append([]chunk(nil), srv.chunks...)
 	o.Frames = append([]frameRec(nil), srv.frs...)
 	for _, r := range srv.reqs {
 		o.Wire = append(o.Wire, r.ID)
 	}
-	o.SrvOut, o.Stalled, o.Half = srv.maxOut, srv.stalled, srv.half
+	o.SrvOut, o.Stalled = srv.maxOut, srv.stalled
 	srv.mu.Unlock()
 	// the stream the model reads is what was sent before logging stopped; nothing is sent afterwards
 	sort.Slice(o.evs, func(i, j int) bool { return o.evs[i].Seq < o.evs[j].Seq })
@@ -668,6 +721,31 @@ func runCase(c caseT) (obsT, error) {
 	for _, e := range o.evs {
 		if e.Kind == "wrote" && e.K >= 0 {
 			o.ids[e.K] = e.ID
+		}
+	}
+	// The stream as the receiver experienced it: what the server sent after the first read timeout had been
+	// handed to its caller came too late to be read (the deadline is an event of the model: silence = end of
+	// the stream).  Something sent shortly before that moment makes the case ambiguous (it is run again).
+	{
+		var failT int64 = -1
+		for _, e := range o.evs {
+			if e.Kind == "ans" && !e.Ok && e.Err == 3 {
+				failT = e.T
+				break
+			}
+		}
+		for _, ch := range chunks {
+			if failT >= 0 && ch.T > failT {
+				o.Cut = true
+				break
+			}
+			if failT >= 0 && failT-ch.T < int64(20*time.Millisecond) {
+				o.Ambig = true
+			}
+			o.stream = append(o.stream, ch.Bytes...)
+			if ch.Half {
+				o.Half = true
+			}
 		}
 	}
 	// a call for which the receiver logged "delivered" but which returned an error failed to decode the body
@@ -698,6 +776,9 @@ func runCase(c caseT) (obsT, error) {
 func monitor(c caseT, o obsT) *cf.Monitor {
 	// every call returns
 	for i, r := range o.Results {
+		if r.Class == "panic" {
+			return &cf.Monitor{Signature: "c14:call-panicked", What: fmt.Sprintf("call %d (%s) panicked inside the broker", i, c.Calls[i].Kind)}
+		}
 		if r.Class == "hung" {
 			return &cf.Monitor{Signature: "c14:call-hung", What: fmt.Sprintf("call %d (%s) had not returned after 5 s", i, c.Calls[i].Kind)}
 		}
@@ -869,7 +950,7 @@ func genCase(r *rand.Rand, i int) caseT {
 	ns := r.Intn(7)
 	for j := 0; j < ns; j++ {
 		var sp spec
-		switch r.Intn(16) {
+		switch r.Intn(18) {
 		case 0, 1, 2, 3, 4, 5:
 			sp = spec{Kind: "ok"}
 		case 6:
@@ -888,11 +969,15 @@ func genCase(r *rand.Rand, i int) caseT {
 		case 12:
 			sp = spec{Kind: "trunc", Arg: int64(1 + r.Intn(12))}
 		case 13:
-			sp = spec{Kind: []string{"close", "stall"}[r.Intn(2)]}
+			sp = spec{Kind: []string{"close", "stall"}[r.Intn(2)], Arg: int64(r.Intn(2))}
 		case 14:
 			sp = spec{Kind: "tagnz", Arg: []int64{1, 128, 5}[r.Intn(3)]}
 		case 15:
-			sp = spec{Kind: "biglen", Arg: int64(r.Intn(2))}
+			sp = spec{Kind: "biglen", Arg: int64(r.Intn(3))}
+		case 16:
+			sp = spec{Kind: "wronghdr", Arg: []int64{1, -1, 3}[r.Intn(3)]}
+		case 17:
+			sp = spec{Kind: "badlenhdr", Arg: []int64{4, 0, int64(maxResp) + 1, -5}[r.Intn(4)]}
 		}
 		c.Script = append(c.Script, sp)
 	}
@@ -928,6 +1013,10 @@ func corpus() []caseT {
 		{Name: "wrap", Max: 2, Corr0: 2147483646, Calls: hb(4), Term: "ok", Steer: "free", ReadTimeoutMs: 250, Seed: 6},
 		{Name: "trunc-close", Max: 3, Calls: hb(4), Script: []spec{{Kind: "ok"}, {Kind: "trunc", Arg: 5}}, Term: "ok", Steer: "jitter", ReadTimeoutMs: 250, Seed: 7},
 		{Name: "oversize", Max: 2, Calls: hb(3), Script: []spec{{Kind: "badlen", Arg: int64(maxResp) + 1}}, Term: "ok", Steer: "free", ReadTimeoutMs: 250, Seed: 8},
+		{Name: "wrong-header-then-ok", Max: 2, Calls: hb(4), Script: []spec{{Kind: "ok"}, {Kind: "wronghdr", Arg: 1}}, Term: "ok", Steer: "free", ReadTimeoutMs: 250, Seed: 10},
+		{Name: "bad-length-header-then-ok", Max: 3, Calls: hb(4), Script: []spec{{Kind: "badlenhdr", Arg: 4}}, Term: "ok", Steer: "jitter", ReadTimeoutMs: 250, Seed: 11},
+		{Name: "body-stall-then-resume", Max: 2, Calls: []call{{Kind: "hb", G: 0}, {Kind: "hb", G: 0}, {Kind: "hb", G: 0}, {Kind: "hb", G: 1, DelayUs: 600000}}, Script: []spec{{Kind: "biglen", Arg: 2}}, Term: "ok", Steer: "free", ReadTimeoutMs: 250, Seed: 12},
+		{Name: "header-stall-then-resume", Max: 1, Calls: []call{{Kind: "api", G: 0}, {Kind: "api", G: 0}, {Kind: "hb", G: 1, DelayUs: 600000}}, Script: []spec{{Kind: "ok"}, {Kind: "stall", Arg: 1}}, Term: "ok", Steer: "free", ReadTimeoutMs: 250, Seed: 13},
 		{Name: "close-racing", Max: 2, Calls: append(hb(4), call{Kind: "close", G: 4, DelayUs: 200}), Term: "ok", Steer: "jitter", ReadTimeoutMs: 250, Seed: 9},
 	}
 }
@@ -970,6 +1059,7 @@ func coqCase(c caseT, o obsT) string {
 		}
 	}
 	placedFails := false
+	ndeq := 0
 	for _, e := range o.evs {
 		switch e.Kind {
 		case "wrote":
@@ -978,6 +1068,17 @@ func coqCase(c caseT, o obsT) string {
 			log = append(log, fmt.Sprintf("EEnq %d %s", e.K, cf.Z(int64(e.ID))))
 		case "deq":
 			log = append(log, fmt.Sprintf("EDeq %s", cf.Z(int64(e.ID))))
+			ndeq++
+			if o.syncSeq > 0 && ndeq == o.syncN {
+				// the receiver was held here: every lock-holder event logged before the release precedes what it does next
+				m := 0
+				for _, f := range o.evs {
+					if f.Seq <= o.syncSeq && (f.Kind == "wrote" || f.Kind == "enq" || f.Kind == "closebegin") {
+						m++
+					}
+				}
+				log = append(log, fmt.Sprintf("ESync %d", m))
+			}
 		case "ans":
 			log = append(log, fmt.Sprintf("EAns %s %s %s", cf.Z(int64(e.ID)), cf.Bool(e.Ok), cf.Z(e.Err)))
 		case "closebegin":
@@ -1022,6 +1123,9 @@ func coqCase(c caseT, o obsT) string {
 // a timeout although the server never went silent, or an error class the model has no id for:
 // scheduling noise of the sandbox, the case is run again
 func noisy(o obsT) bool {
+	if o.Ambig {
+		return true
+	}
 	for _, r := range o.Results {
 		if r.Class == "err" && (r.Err == 99 || r.Err == 11) {
 			return true
@@ -1034,10 +1138,11 @@ func noisy(o obsT) bool {
 }
 
 type outT struct {
-	c   caseT
-	o   obsT
-	mon *cf.Monitor
-	err error
+	skip bool
+	c    caseT
+	o    obsT
+	mon  *cf.Monitor
+	err  error
 }
 
 func runChecked(c caseT) outT {
@@ -1054,6 +1159,9 @@ func runChecked(c caseT) outT {
 	}
 	if err != nil {
 		return outT{c: c, err: err}
+	}
+	if o.Ambig {
+		return outT{c: c, o: o, skip: true} // timing too close to call three times in a row: not evaluated
 	}
 	mon := monitor(c, o)
 	// anything but the steered (deterministic) wire-bound measurement must reproduce before it counts
@@ -1092,6 +1200,10 @@ func main() {
 	maxResp = []int32{1000, 4096, 65536}[r.Intn(3)]
 	sarama.MaxResponseSize = maxResp
 	sarama.VerifSetObserver(observer)
+	sarama.PanicHandler = func(v interface{}) {
+		atomic.AddInt32(&panics, 1)
+		fmt.Fprintf(os.Stderr, "panic in a sarama goroutine: %v\n", v)
+	}
 	cases := corpus()
 	for i := 0; i < *n; i++ {
 		cases = append(cases, genCase(r, i))
@@ -1111,11 +1223,15 @@ func main() {
 	}
 	wg.Wait()
 	w := &cf.Writer{Dir: *out, Prefix: "cases_c14", Imports: "From SV Require Import C14.Model C14.Corr.", CaseType: "ccase", MismatchFn: "mismatches_c14", ShardSize: 150}
-	nohooks := 0
+	nohooks, skipped := 0, 0
 	for _, x := range outs {
 		if x.err != nil {
 			fmt.Fprintf(os.Stderr, "case %s: harness error: %v\n", x.c.Name, x.err)
 			os.Exit(3)
+		}
+		if x.skip {
+			skipped++
+			continue
 		}
 		if x.o.NoHooks {
 			nohooks++
@@ -1135,5 +1251,5 @@ func main() {
 			Kind: x.c.Steer + "/" + x.c.Term, Nontrivial: nexp >= 2, Monitor: x.mon})
 	}
 	w.Close()
-	fmt.Printf("C14 cases=%d nohooks=%d\n", len(outs), nohooks)
+	fmt.Printf("C14 cases=%d nohooks=%d skipped=%d panics=%d\n", len(outs), nohooks, skipped, atomic.LoadInt32(&panics))
 }
